@@ -5,7 +5,7 @@ natural failures of the shared corpus.
 """
 import os
 
-from checks import _shared
+from checks import _shared, _core
 import shared
 
 LEVEL = "fault_enumeration"
@@ -30,6 +30,7 @@ def run(ctx):
     name="fault", plan=PLAN)
   out["level"] = LEVEL
   bundle_model(ctx, out)
+  _core.merge(ctx, out, "C04.")      # rejected actions of spec/Core.tla (C04.model)
   # C08 after rollback is part of the statement ("its internal schema still matches the metadata")
   res = shared.get(ctx, name="fault", plan=PLAN)
   out["violations"] += [v for v in shared.clause_violations(ctx, res, "C08.", shared.n_bundles_fn(ctx, PLAN))
@@ -107,6 +108,8 @@ def bundle_model(ctx, out):
 
 
 def replay(ctx, data):
+  if "core_chunk" in data:
+    return _core.replay(ctx, data, "C04.")
   if "case" in data:
     import json   # pylint: disable=import-outside-toplevel
     import corpus, tlc    # pylint: disable=import-outside-toplevel,multiple-imports
